@@ -71,6 +71,7 @@ def run(ctx, rep) -> None:
     rep.rule("C02.R1", "the store's processed-record is consulted before dispatch unless the in-memory filter is trusted, authoritative and negative; handler.handle has exactly one caller")
     rep.rule("C02.R2", "every effectful commit of a handler is reached only with the addressed entity read in the step's start status (table per handler, statuses from models/status.py)")
     rep.rule("C02.R3", "execute_with_timeout only under task RUNNING, workflow not canceled / not complete; Task.execute called only from the execution wrappers")
+    rep.rule("C02.R4", "task-level messages (StartTask / RunTask / CompleteTask) identify the loop iteration they belong to, and the receiver compares it with the stage's: a status guard alone cannot tell an old message from the current one once a jump re-armed the task")
     rep.undecided += ["outcome equality under every permutation / duplication of deliveries", "at most once per loop iteration beyond the claim CAS (C04)"]
     rep.assumptions += ["the status guard is evaluated on an entity re-read from the store in the same activation (checked: own-entity origin)"]
     dedup_guard_rule(ctx, rep, "C02.R1")
@@ -120,6 +121,24 @@ def run(ctx, rep) -> None:
     rep.count(guard_instances=checked, handler_paths=len(infos))
     rep.floor("entry-guard instances", checked, 30)
     rep.floor("handlers with a guard table entry that have effectful commits", len({k[0] for k in seen}), 12)
+
+    # ---- R4 iteration identity -----------------------------------------------------------------------
+    # reset_stage_for_retry puts a task back to NOT_STARTED and the next iteration makes it RUNNING again: the statuses
+    # the guards look at repeat. A message of the previous iteration that is still pending (its commit pushed it together
+    # with the JumpToStage, or a sibling branch was re-armed under it) then passes the guard of the NEW iteration.
+    msgs_mod = prog.module("stabilize.queue.messages")
+    tl = msgs_mod.classes.get("TaskLevel") or msgs_mod.classes.get("CompleteTask")
+    fields = set()
+    if tl is not None:
+        for c_ in prog.mro(tl):
+            fields |= {norm(s_.target) for s_ in c_.node.body if isinstance(s_, ast.AnnAssign)}
+    ident = sorted(f_ for f_ in fields if any(w_ in f_.lower() for w_ in ("iteration", "epoch", "generation", "attempt_of", "jump_count")))
+    base_cls = prog.cls("stabilize.handlers.base", "StabilizeHandler")
+    wt = base_cls.methods.get("with_task")
+    compared = bool(ident) and wt is not None and any(f"message.{f_}" in norm(wt.node) for f_ in ident)
+    rep.check(compared, "C02.R4", "task-level messages carry a loop-iteration identity that the receiver checks", f"field(s) {ident} compared in StabilizeHandler.with_task" if compared else
+              f"TaskLevel messages have the fields {sorted(fields)} - nothing identifies the iteration, and with_task compares nothing but ids: a CompleteTask / StartTask / RunTask left over from the previous loop iteration is accepted by the "
+              "re-armed task of the next one (its body is skipped or runs an extra time; the stage can stay RUNNING for good)", msgs_mod.relpath, tl.node.lineno if tl is not None else 0, disc="no-iteration-identity")
 
     # ---- R3 --------------------------------------------------------------------------------------
     rt = res["RunTaskHandler"]
